@@ -90,9 +90,9 @@ func genScatterCase(t *rapid.T) ScatterCase {
 
 type scatterStats struct {
 	ops, moved, leaderOnly, specialMoved, refused, noop int
-	perGroup                                           map[int]int
-	collapse, forced, handBack                         bool
-	byID, byRange, unknownReported                     bool
+	perGroup                                            map[int]int
+	collapse, forced, handBack                          bool
+	byID, byRange, unknownReported                      bool
 }
 
 func runScatterCase(c ScatterCase) (vkit.Info, error) {
